@@ -40,6 +40,25 @@ Fixpoint ideal_trace (es : list extender) (ok : bool) : list event :=
   end.
 Definition ideal {A} (es : list extender) (w : result A) : comp A := (ideal_trace es (is_ok w), w).
 
+(* the same with get_function_extender's case split (no extender / one bare extender / a chain) and for a plan *)
+Definition ideal_dispatch {A} (l : list extender) (w : result A) : comp A :=
+  match l with
+  | [] => wrapped w
+  | [e] => ext_call e (wrapped w)
+  | _ => ideal (isort l) w
+  end.
+Definition ideal_run_wrapped {A} (h : hook) (order : list extender) (w : result A) : comp A :=
+  ideal_dispatch (matching h order) w.
+Fixpoint ideal_run_calls (order : list extender) (fails : call -> bool) (cs : list call) : list (call * list event) * bool :=
+  match cs with
+  | [] => ([], false)
+  | c :: r =>
+      match ideal_run_wrapped (kind_hook (snd c)) order (call_result fails c) with
+      | (t, Ok _) => let (l, fl) := ideal_run_calls order fails r in ((c, t) :: l, fl)
+      | (t, Err _) => ([(c, t)], true)
+      end
+  end.
+
 (* pass-through chain: enter ascending, one call, exit in reverse *)
 Definition passthrough_trace (ids : list nat) : list event := map Enter ids ++ [Call] ++ map Exit (rev ids).
 
